@@ -7,7 +7,7 @@ import hashlib
 def opk(rec):
     if rec["op"] == "block":
         return "block", {}
-    (k, v), = rec["op"].items()
+    (k, v), = (rec["op"].items() if isinstance(rec["op"], dict) else [(rec["op"], {})])
     return k, v
 
 
@@ -304,6 +304,88 @@ def c03(rec):
             out.append(V("C03", "paid-more-than-released", f"reward block {h}: {paid}{d} paid out, {released}{d} released from gauges"))
     return out
 
+
+
+# ---------------------------------------------------------------- ghost of accepted proofs (C02, C03)
+
+class AcceptedProofs:
+    """Model-free memory of what the chain itself accepted: per (account, file) the height of the
+    last PostProof answered Success=true (or of a completed attestation quorum).  At a reward block
+    an account whose last accepted proof passes the window test must still be among the file's
+    provers afterwards -- whatever the store's own proof records say (a prover listed under one key
+    and recorded under another is exactly what this sees and the records do not)."""
+
+    def __init__(self, prop):
+        self.prop = prop
+        self.hist = None
+        self.last = {}
+
+    def __call__(self, rec):
+        if rec.get("mod") != "storage":
+            return []
+        if rec["hist"] != self.hist:
+            self.hist, self.last = rec["hist"], {}
+        out = []
+        k, v = opk(rec)
+        pre, post = rec["pre"], rec["post"]
+        acc = dict(pre.get("canon") or []).get
+        if k == "postProof" and rec.get("success"):
+            key = (v["merkle"], v["owner"], v["start"])
+            self.last[(acc(v["creator"], v["creator"]), key)] = rec["h"]
+        if k == "attest":
+            p0, p1 = proofs(pre), proofs(post)
+            for key, p in p1.items():
+                if key in p0 and p0[key]["lastProven"] != p["lastProven"]:
+                    self.last[(acc(key[0], key[0]), key[1:])] = rec["h"]
+        if k in ("deleteFile", "postFile", "report") or (k == "block"):
+            # files that ceased to exist (deleted, replaced, dropped) and provers removed by a report
+            f1 = files(post)
+            for (a, key) in list(self.last):
+                f = f1.get(key)
+                if f is None:
+                    if k != "block":
+                        del self.last[(a, key)]
+                elif k == "report" and not any(acc(pk(x)[0], pk(x)[0]) == a for x in f["proofs"]):
+                    del self.last[(a, key)]
+        if is_reward(rec):
+            h = rec["h"]
+            f0, f1 = files(pre), files(post)
+            for (a, key), at in list(self.last.items()):
+                f = f0.get(key)
+                if f is None:
+                    del self.last[(a, key)]
+                    continue
+                listed0 = any(acc(pk(x)[0], pk(x)[0]) == a for x in f["proofs"])
+                if not listed0:
+                    del self.last[(a, key)]
+                    continue
+                if passes(h, f, {"lastProven": at}):
+                    still = key in f1 and any(acc(pk(x)[0], pk(x)[0]) == a for x in f1[key]["proofs"])
+                    if not still:
+                        out.append(V(self.prop, "accepted-prover-dropped",
+                                     f"{a} had a proof accepted at {at} (file start {f['start']}, window {f['proofInterval']}) and was removed at reward block {h}"))
+                        del self.last[(a, key)]
+                else:
+                    # it lapsed: the chain removes it (or keeps it through a record the ghost does not see)
+                    if not (key in f1 and any(acc(pk(x)[0], pk(x)[0]) == a for x in f1[key]["proofs"])):
+                        del self.last[(a, key)]
+        return out
+
+
+class C02:
+    def __init__(self):
+        self.ghost = AcceptedProofs("C02")
+
+    def __call__(self, rec):
+        return c02(rec) + self.ghost(rec)
+
+
+class C03:
+    def __init__(self):
+        self.ghost = AcceptedProofs("C03")
+
+    def __call__(self, rec):
+        return c03(rec) + self.ghost(rec)
 
 # ---------------------------------------------------------------- C04
 
